@@ -195,7 +195,7 @@ def date_config(draw, method=None, invalid=None, hints=()):
         if method == "inside_outside":
             opt("outside_standardize", _bool())
             opt("ignore_oldest_root", _bool())
-            if draw(st.integers(0, 9)) == 4:
+            if draw(st.integers(0, 4)) == 4:
                 kw["mutation_rate"] = None  # topology-only clock: documented for single trees
     method_kw = method
     if entry == "date" and method == "variational_gamma" and draw(st.booleans()):
